@@ -737,9 +737,9 @@ def _on_recursion(interp, fi, args, kwargs):
 _induct_cache = {}
 
 
-def inductive_summary(model, cfg, func):
+def inductive_summary(model, cfg, func, containers=None):
     """For a self-recursive string function: are all its non-recursive results text-/attribute-safe?"""
-    key = (id(model), cfg.key(), func.qualname)
+    key = (id(model), cfg.key(), func.qualname, None if containers is None else (containers[0], id(containers[1])))
     if key in _induct_cache:
         return _induct_cache[key]
     res = {'TEXT': True, 'ATTR-DQ': True, 'values': []}
@@ -764,7 +764,13 @@ def inductive_summary(model, cfg, func):
         install_string_hooks(it)
         install_render_hooks(model, it)
         try:
-            args = [LeafTok()] if func.kind == 'staticmethod' else [clone_obj(cfg.obj), LeafTok()]
+            robj = clone_obj(cfg.obj)
+            if containers is not None:
+                for attr, v in list(robj.attrs.items()):
+                    if isinstance(v, dict) and attr != 'render_map':
+                        robj.attrs[attr] = RecMap(attr, containers[1]) if containers[0] == 'record' \
+                            else SummaryMap(attr, containers[1].get(attr, []))
+            args = [LeafTok()] if func.kind == 'staticmethod' else [robj, LeafTok()]
             return it.call_function(func, args, {})
         except Raised as r:
             return r
@@ -817,8 +823,91 @@ class PathOut:
         self.truncated = truncated
 
 
-def run_render_method(model, cfg, func, token_cls, facts, extra_hooks=None, max_paths=3000, extra_args=None):
-    """All paths of renderer.<func>(token) for an abstract token of token_cls."""
+class RecMap(AbstractValue):
+    """A dict-valued attribute of a renderer during the recording pass: empty for every reader, every store logged."""
+
+    def __init__(self, attr, log):
+        self.attr, self.log = attr, log
+
+    def abs_getattr(self, interp, name):
+        return _AbsBound(self, name)
+
+    def abs_setitem(self, interp, key, value):
+        self.log.append((self.attr, 'store', value))
+
+    def abs_getitem(self, interp, idx):
+        self.log.append((self.attr, 'read', None))
+        raise Raised(ExcVal('KeyError', (self.attr,)))
+
+    def abs_contains(self, interp, item):
+        self.log.append((self.attr, 'read', None))
+        return False
+
+    def abs_truth(self, interp):
+        return False
+
+    def abs_len(self, interp):
+        return 0
+
+    def abs_iter(self, interp):
+        self.log.append((self.attr, 'read', None))
+        return iter(())
+
+    def abs_method(self, interp, name, args, kwargs):
+        if name == 'get':
+            self.log.append((self.attr, 'read', None))
+            return args[1] if len(args) > 1 else None
+        if name == 'setdefault' and len(args) == 2:
+            self.log.append((self.attr, 'store', args[1]))
+            return args[1]
+        if name == 'update':
+            self.log.append((self.attr, 'store-many', args[0] if args else None))
+            return None
+        if name in ('items', 'keys', 'values'):
+            self.log.append((self.attr, 'read', None))
+            return []
+        return None
+
+
+class SummaryMap(AbstractValue):
+    """The same attribute in the second pass: a lookup may miss or yield any value some method stores there."""
+
+    def __init__(self, attr, values):
+        self.attr, self.values = attr, list(values)
+
+    def abs_getattr(self, interp, name):
+        return _AbsBound(self, name)
+
+    def abs_setitem(self, interp, key, value):
+        return None
+
+    def _pick(self, interp, extra):
+        return tk.Choice.pick(interp, ('summary', self.attr, id(self)), list(extra) + self.values)
+
+    def abs_getitem(self, interp, idx):
+        if not self.values:
+            raise Raised(ExcVal('KeyError', (self.attr,)))
+        return self._pick(interp, [])
+
+    def abs_contains(self, interp, item):
+        return interp.decide(('summary-has', self.attr, id(item)), fresh=True)
+
+    def abs_truth(self, interp):
+        return interp.decide(('summary-nonempty', self.attr), fresh=True)
+
+    def abs_method(self, interp, name, args, kwargs):
+        if name == 'get':
+            return self._pick(interp, [args[1] if len(args) > 1 else None])
+        if name == 'setdefault' and len(args) == 2:
+            return self._pick(interp, [args[1]])
+        if name in ('values',):
+            return list(self.values)
+        return Unknown('%s.%s()' % (self.attr, name))
+
+
+def run_render_method(model, cfg, func, token_cls, facts, extra_hooks=None, max_paths=3000, extra_args=None, containers=None):
+    """All paths of renderer.<func>(token) for an abstract token of token_cls.
+    containers: None, or ('record', log) / ('summary', {attr: [values]}) to replace the renderer's dict-valued attributes."""
     outs = []
 
     def run(oracle):
@@ -829,6 +918,11 @@ def run_render_method(model, cfg, func, token_cls, facts, extra_hooks=None, max_
         if extra_hooks:
             extra_hooks(it)
         renderer = clone_obj(cfg.obj)
+        if containers is not None:
+            for attr, v in list(renderer.attrs.items()):
+                if isinstance(v, dict) and attr != 'render_map':
+                    renderer.attrs[attr] = RecMap(attr, containers[1]) if containers[0] == 'record' \
+                        else SummaryMap(attr, containers[1].get(attr, []))
         st = renderer.attrs.get('_suppress_ptag_stack')
         if isinstance(st, list) and st:
             # the flag on top of the stack is set by the caller (render_list): unknown here
